@@ -216,6 +216,27 @@ func gen(c *core.Ctx) error {
 		try(d)
 		c.Count("size-first-frame-after-peer-sent")
 	}
+	// 2c. buffered writes of mixed size classes (a still-buffered short write followed by a
+	// write of several flush thresholds, and so on): every ordered pair, some triples
+	cls := []int{1, 100, 4096, 16384, 20000, 70000}
+	if !c.Quick() {
+		cls = []int{1, 100, 4095, 4096, 4097, 8192, 16383, 16384, 16385, 20000, 65536, 70000, 262144}
+	}
+	mixed := [][]int{{100, 20000, 5}, {5, 16384, 100, 70000}, {4095, 1, 16384}, {3, 3, 32768, 3}}
+	for _, a := range cls {
+		for _, b := range cls {
+			mixed = append(mixed, []int{a, b})
+		}
+	}
+	for i, parts := range mixed {
+		su := setups()[i%2]
+		su.ReadMax = []int{0, 4096, 100000}[i%3]
+		su.Ctx = i%2 == 1
+		d := &desc{Setup: su, Dirs: []bool{i%2 == 0}, API: []string{apis[i%3]}, Chunk: 1 + 3000*(i%4),
+			Msgs: [][]ss.Msg{{{Kind: "buffered", Chunks: chunksOf(i, parts)}, {Kind: "buffered", Chunks: chunksOf(i+9, []int{2})}}}}
+		try(d)
+		c.Count("buffered-mixed-sizes")
+	}
 	// 3. random multi-message, multi-phase histories
 	nRand := 60
 	if !c.Quick() {
@@ -232,7 +253,11 @@ func gen(c *core.Ctx) error {
 				kind := []string{"buffered", "direct"}[c.Rng.Intn(2)]
 				var parts []int
 				for q := 0; q < c.Rng.Intn(4); q++ {
-					switch c.Rng.Intn(4) {
+					switch c.Rng.Intn(6) {
+					case 4:
+						parts = append(parts, 16000+c.Rng.Intn(800))
+					case 5:
+						parts = append(parts, 30000+c.Rng.Intn(60000))
 					case 0:
 						parts = append(parts, c.Rng.Intn(10))
 					case 1:
